@@ -1,8 +1,9 @@
-\* quick exhaustive config: 2 snaps (both gate), default durations only, boundary ticks
+\* quick exhaustive config: 3 snaps (a, b gate; c only held), default durations only, boundary ticks, 4 steps
+\* (reaches e.g. Hold(a,{c}); Tick(49); Proceed(b,{}); Hold(a,{c}))
 CONSTANTS
-  Snaps <- MCSnaps2
+  Snaps <- MCSnaps3
   Gaters <- MCGaters
-  HoldSets <- MCHoldSetsQ
+  HoldSets <- MCHoldSets
   Ticks <- MCTicksQ
   SysDurs <- MCSysDurs
   ExplicitDurs <- MCNoDurs
